@@ -468,8 +468,10 @@ func Gen(t *rapid.T) *Case {
 		c := &Case{Level: "codec", Enc: rapid.SampledFrom(codecKeys).Draw(t, "codec")}
 		c.W = rapid.SampledFrom([]int{0, 1, 2, 7, 16, 255, 256, 32768, 32769, 40000, 65535}).Draw(t, "w")
 		c.H = rapid.SampledFrom([]int{0, 1, 2, 5, 5, 256, 32768, 32769, 50000, 65535}).Draw(t, "h")
-		c.C = rapid.SampledFrom([]int{0, 1, 1, 2, 3, 3, 4, 65535}).Draw(t, "spp")
-		c.BA = rapid.SampledFrom([]int{0, 1, 7, 8, 8, 9, 12, 16, 16, 32, 64, 65535}).Draw(t, "ba")
+		// (16384, 21846, 32768, 32769: bytes-per-sample x samples-per-pixel products that wrap to a
+		// small number in 16-bit arithmetic)
+		c.C = rapid.SampledFrom([]int{0, 1, 1, 2, 3, 3, 4, 16, 16384, 21846, 32768, 32769, 65535}).Draw(t, "spp")
+		c.BA = rapid.SampledFrom([]int{0, 1, 7, 8, 8, 9, 12, 16, 16, 24, 32, 64, 65535}).Draw(t, "ba")
 		c.BS = rapid.SampledFrom([]int{0, 1, 2, 8, 8, 12, 16, 17, 65535}).Draw(t, "bs")
 		c.Frames = rapid.SampledFrom([]int{0, 1, 1, 2}).Draw(t, "frames")
 		c.NilInfo = rapid.IntRange(0, 7).Draw(t, "nilinfo") == 0
@@ -596,6 +598,21 @@ func TestLattice(t *testing.T) {
 		}
 	}
 	eval(&Case{Level: "pkg", Enc: "j2k", W: 5, H: 4, C: 1, P: 8, NilParams: true, Buf: 20})
+	// codec level: the byte-plane lattice of the RLE codec (BitsAllocated x SamplesPerPixel, with the
+	// values whose product wraps to a small number in 16-bit arithmetic) and the same frame
+	// descriptions through every other codec
+	for _, enc := range codecKeys {
+		for _, ba := range []int{8, 16, 24, 32, 64} {
+			for _, spp := range []int{1, 2, 3, 4, 5, 7, 8, 15, 16, 17, 16384, 21845, 21846, 32768, 32769, 65535} {
+				if enc != "RLE" && spp > 4 && spp < 16384 {
+					continue
+				}
+				for _, buf := range []int{64, 4 * (ba / 8) * min(spp, 64)} {
+					eval(&Case{Level: "codec", Enc: enc, W: 2, H: 2, C: spp, BA: ba, BS: min(ba, 16), Frames: 1, ParMode: "nil", Buf: buf})
+				}
+			}
+		}
+	}
 	core.ExhaustiveDone("argument lattice of the package-level encoders: dims {-1,0,1,2,3}^2 x comps 0..5 x depth set x argument set x buffer lengths, plus the 255..65537 dimension corner and the JPEG 2000 level/code-block lattice", int64(n))
 	core.AddSample(map[string]any{"lattice": fmt.Sprintf("%d points", n)})
 }
